@@ -69,11 +69,11 @@ def _override_problem(case):
     return p
 
 
-def _point(k):
+def _point(k, a_units):
     import openmdao.api as om
     G = om.Group()
-    G.add_subsystem('d', om.ExecComp('z = %s*a + b' % k, a={'shape': 2}, b={'shape': 2},
-                                     z={'shape': 2}), promotes_inputs=['a', 'b'])
+    G.add_subsystem('d', om.ExecComp('z = %s*a + b' % k, a={'shape': 2, 'units': a_units},
+                                     b={'shape': 2}, z={'shape': 2}), promotes_inputs=['a', 'b'])
     G.add_subsystem('e', om.ExecComp('q = 3*z + 1', z={'shape': 2}, q={'shape': 2}),
                     promotes_outputs=['q'])
     G.connect('d.z', 'e.z')
@@ -86,8 +86,11 @@ def _twins_problem(case):
     names = ['pt1', 'pt2', 'pt3']
     if case['order'] == 'rev':
         names = names[::-1]
+    # the shared (auto-IVC) input 'a' is declared in different units by the instances
     for n in names:
-        p.model.add_subsystem(n, _point(float(n[-1]) + 1.0), promotes_inputs=['a'])
+        p.model.add_subsystem(n, _point(float(n[-1]) + 1.0, 'cm' if n == 'pt2' else 'm'),
+                              promotes_inputs=['a'])
+    p.model.set_input_defaults('a', units='m', val=np.ones(2))
     return p
 
 
